@@ -350,6 +350,34 @@ func c14(repo string, out *fg.Out) error {
 	}
 	fmt.Fprintf(L, "def shortCircuitLiteral : String := %s\n", fg.LeanStr(sc1[0]))
 	fmt.Fprintf(L, "def rewriteNeeds : List String := %s\n", leanList(sc1[1:3]))
+	// transform-cache key: `cacheKey := headerDB + <sep> + sql`, assigned exactly once (unconditionally)
+	var keyAssigns []ast.Expr
+	ast.Inspect(gt.Body, func(n ast.Node) bool {
+		if as, ok := n.(*ast.AssignStmt); ok && len(as.Lhs) == 1 && len(as.Rhs) == 1 {
+			if id, ok := as.Lhs[0].(*ast.Ident); ok && id.Name == "cacheKey" {
+				keyAssigns = append(keyAssigns, as.Rhs[0])
+			}
+		}
+		return true
+	})
+	if len(keyAssigns) != 1 {
+		return fmt.Errorf("getTransformedSQL: expected exactly one assignment to cacheKey, found %d", len(keyAssigns))
+	}
+	kb, ok := keyAssigns[0].(*ast.BinaryExpr)
+	if !ok {
+		return fmt.Errorf("getTransformedSQL: cacheKey is not headerDB + sep + sql")
+	}
+	kb2, ok2 := kb.X.(*ast.BinaryExpr)
+	kl, _ := kb.Y.(*ast.Ident)
+	if !ok2 || kl == nil || kl.Name != "sql" {
+		return fmt.Errorf("getTransformedSQL: cacheKey is not headerDB + sep + sql")
+	}
+	kh, _ := kb2.X.(*ast.Ident)
+	ksep, kerr := evalStr(kb2.Y)
+	if kh == nil || kh.Name != "headerDB" || kerr != nil || len(ksep) != 1 {
+		return fmt.Errorf("getTransformedSQL: cacheKey is not headerDB + <one-byte separator> + sql")
+	}
+	fmt.Fprintf(L, "def cacheKeySepByte : Nat := %d\n", ksep[0])
 	// `with ` gate: extractCTENames inside `if strings.Contains(sqlLower, "with ")` in the header path
 	gated, gateLit := false, ""
 	ast.Inspect(hfd.Body, func(n ast.Node) bool {
